@@ -172,8 +172,10 @@ impl<T: Socket + ?Sized> Worker<T> {
         if check_response {
             self.check_response()?;
         }
+        let mut end_of_file = false;
         loop {
-            let filled = window.fill()?;
+            let filled = !end_of_file && window.fill()?;
+            end_of_file = !filled;
 
             let mut retry_cnt = 0;
             let mut time = Instant::now() - (self.timeout + TIMEOUT_BUFFER);
